@@ -16,13 +16,13 @@ CHECKS = {
  "C02": dict(level=MC, design="§4 C02", technique="bounded-exhaustive enumeration of Fun programs (incl. the complete shadowing product) x inputs; reference machine R-FUN vs Core abstract machine on the real translation output, every execution compared",
     text="Every program of the bounded families, in particular FUN-SHADOW (binder kind x inner name x outer name x continuation kind x label/covariable shadowing) and the generated-name lookalikes, is translated by the real compile_prog and executed on the Core machine with lexical scoping; output and result must equal R-FUN's; scoping/typing and name uniqueness of the output are checked statically.",
     note="R-FUN/R-CORE independent of the repository; both agree with compiled code on the repository's examples"),
- "C03": dict(level=MC, design="§4 C03", technique="bounded-exhaustive enumeration of Core programs reachable from Fun (effects in every argument position); Core machine before vs after the real focusing, every execution compared, binder uniqueness on every path",
-    text="R-CORE on the translation output vs R-CORE on the focused program (embedded back into Core): identical print sequence and result on every program x input of the families incl. FUN-EFFECT (print/goto/exit in operator, call, constructor, destructor, condition and codata arguments); binder ids along every path distinct, non-zero and <= max_id.",
+ "C03": dict(level=MC, design="§4 C03", technique="bounded-exhaustive enumeration of Core programs reachable from Fun (effects in every argument position) and of hand-built Core programs (G-CORE: every statement up to a node bound over a two-name pool, so that every shadowing occurs); Core machine before vs after the real focusing, every execution compared, binder uniqueness on every path",
+    text="R-CORE on the translation output vs R-CORE on the focused program (embedded back into Core): identical print sequence and result on every program x input of the families incl. FUN-EFFECT (print/goto/exit in operator, call, constructor, destructor, condition and codata arguments); binder ids along every path distinct, non-zero and <= max_id. The same for every program of the G-CORE enumeration (TC-CORE confirms the premise).",
     note="R-CORE's dynamic focusing is the oracle for evaluation order"),
- "C04": dict(level=MC, design="§4 C04", technique="bounded-exhaustive enumeration of focused Core programs; Core machine vs AxCut machine on the real shrinking output, every execution compared; lifted signatures checked",
+ "C04": dict(level=MC, design="§4 C04", technique="bounded-exhaustive enumeration of focused Core programs (from the Fun families and from G-CORE incl. a two-constructor type whose critical pairs are lifted); Core machine vs AxCut machine on the real shrinking output, every execution compared; lifted signatures checked",
     text="R-CORE(focused) vs the by-name AxCut machine on shrink_prog's output on every program x input; lifted definitions receive exactly their free variables; output well-scoped with unique binders per path.",
     note="as C03"),
- "C05": dict(level=MC, design="§4 C05", technique="complete enumeration of non-linear AxCut statements over <= 4 variables + all pipeline programs; ordered-linear judgment on every statement of every path; by-name vs positional machine, every execution compared",
+ "C05": dict(level=MC, design="§4 C05", technique="complete enumeration of non-linear AxCut statements over <= 4 variables + all pipeline programs (Fun families and G-CORE); ordered-linear judgment on every statement of every path; by-name vs positional machine, every execution compared",
     text="The complete input space of the linearizer for small contexts (kinds x statement kinds x argument tuples with repetition x used-afterwards subsets x captured subsets) and every shrunk program of the Fun families are linearized by the real code; TC-AX (DESIGN App. A) must accept every statement of the result and the positional machine must reproduce the by-name machine's observations.",
     note="Appendix A judgment is read off the backends"),
  "C06": dict(level=MC, design="§4 C06/C07/C08", technique="bounded-exhaustive enumeration of linear AxCut programs; every execution of the real x86-64 output on a text-level emulator checked against a reference machine",
@@ -43,13 +43,13 @@ CHECKS = {
  "C11": dict(level=MC, design="§4 C11", technique="complete enumeration of substitution configurations (all maps m,n<=5 x kinds x offsets x 3 backends); each compiled by the real code generator and executed; post-state compared with the simultaneous-assignment model",
     text="Every configuration in the stated finite space is executed: simultaneous assignment of both temporaries, count arithmetic, exactly-once release of dropped last references, and a frame condition on everything else. Thorough tier completes n,m <= 5 (exhaustive: true).",
     note="emulators as C06-C08; the pre-state is constructed by the harness on top of the real post-prologue machine state"),
- "C12": dict(level=EX, design="§4 C12", technique="bounded-exhaustive enumeration of accepted programs; independent type checkers for Core and AxCut on every stage output; panics caught per stage",
+ "C12": dict(level=EX, design="§4 C12", technique="bounded-exhaustive enumeration of accepted programs and of hand-built Core programs (G-CORE); independent type checkers for Core and AxCut on every stage output; panics caught per stage",
     text="Every program of the Fun families passes through all stages and the three code generators under catch_unwind; TC-CORE/TC-AX check each intermediate program with the judgments of the property. The RV64 print panic is a recorded known finding.",
     note="checkers use only the annotations the programs carry and the declared signatures"),
  "C14": dict(level=EX, design="§4 C14", technique="bounded-exhaustive enumeration of emitted assembly files; static lint of every label/operand/table per instruction form, GNU as acceptance and object-code read-back for x86-64, symbol-injection closure over generated names",
     text="Every file emitted for the AxCut and Fun families on the three backends is linted for label definedness/uniqueness, runtime-symbol clashes, operand ranges of the printed instruction forms and jump-table entry form; x86-64 files are assembled by GNU as and their tables read back from the object code; for each generated definition symbol the variant program with a user definition of that spelling is compiled and linted (iterated so that the injected name follows the generated numbering).",
     note="range tables written from the ISA manuals; GNU as stands in for yasm"),
- "C15": dict(level=EX, design="§4 C15", technique="bounded-exhaustive enumeration of well-typed programs x 24+8 single-edit mutation classes x every applicable site; the real checker must accept the former and reject every mutant",
+ "C15": dict(level=EX, design="§4 C15", technique="bounded-exhaustive enumeration of well-typed programs x 30+8 single-edit mutation classes x every applicable site; the real checker must accept the former and reject every mutant",
     text="All programs of the Fun families and dedicated polymorphic/covariable/shadowing programs are accepted; every applicable site of every edit class (argument counts, wrong-type operand, unbound names of every sort, missing/extra/duplicated clauses, binders, type-argument arity in terms and in declarations, constructor at i64, cocase at data, duplicates of every declaration sort, variable for covariable) yields a tree that Program::check rejects.",
     note="each edit is ill-typed by construction"),
  "C16": dict(level=EX, design="§4 C16", technique="bounded-exhaustive enumeration of parser-accepted texts (every term form in every slot of every term form) x all (width, indent) configurations; reparse equality and idempotence on every distinct rendering",
@@ -61,9 +61,9 @@ CHECKS = {
  "C18": dict(level=EX, design="§4 C18", technique="bounded-exhaustive enumeration of inputs (all token sequences up to length 3/4, all short character strings, all single-token edits of a corpus, boundary literals, nesting depths, entry shapes) through the real front end and, when accepted, all later stages under catch_unwind; byte-level inputs through the real binary",
     text="No input may make parsing, checking or (for accepted programs with a valid entry point) any later stage panic, other than the capacity assertions. The RV64 print panic is a recorded known finding.",
     note="1 GiB worker stacks; stack exhaustion excluded by the property"),
- "C19": dict(level=EX, design="§4 C19", technique="exhaustive enumeration of nine scalable program families at every depth 1..12/16; growth ratio and quadratic cap on the size of every stage output",
+ "C19": dict(level=EX, design="§4 C19", technique="exhaustive enumeration of 13 scalable program families and of 15 one-hole contexts (singly and in all 210 alternating pairs) at every depth 1..12/16 (pairs ..24/32); growth ratio and quadratic cap on the size of every stage output",
     text="For every family and depth the real pipeline's outputs are measured at six stages: ratio size(k+1)/size(k) <= 1.5 from depth 8 on and size(kmax) <= 64 * source^2.",
-    note="printed length stands for node count"),
+    note="printed length without layout stands for node count"),
  "C20": dict(level=EX, design="§4 C20", technique="exhaustive enumeration over a boundary value set and all argument tuples/arities/wrong counts; io.c compiled unmodified into a harness; echo programs compiled by the real pipeline and run natively; AArch64 entry on the emulator",
     text="print_i64/println_i64 on every boundary value (decimal text, nothing else); every argument tuple over a value set with values beyond 32 bits for arities 0..5 natively (0..7 AArch64 on the emulator); every wrong argument count 0..7 reported without running; exit status = low 8 bits.",
     note="gcc/glibc of the sandbox"),
